@@ -45,6 +45,8 @@ inline LatLng offset(LatLng p, double dist, double az) {
 struct Ico {
     LatLng vert[12];
     int edges[30][2];
+    LatLng faceCentre[20];
+    int nfaces = 0;
     Ico() {
         H3Index p[12];
         getPentagons(0, p);
@@ -60,6 +62,18 @@ struct Ico {
                     n++;
                 }
             }
+        // faces = triples of mutually adjacent vertices; centre = normalised sum
+        auto adj = [&](int i, int j) {
+            V3 a = toV(vert[i].lat, vert[i].lng), b = toV(vert[j].lat, vert[j].lng);
+            return std::acos(a.x * b.x + a.y * b.y + a.z * b.z) < 1.2;
+        };
+        for (int i = 0; i < 12; i++)
+            for (int j = i + 1; j < 12; j++)
+                for (int k = j + 1; k < 12; k++)
+                    if (adj(i, j) && adj(j, k) && adj(i, k) && nfaces < 20) {
+                        V3 a = toV(vert[i].lat, vert[i].lng), b = toV(vert[j].lat, vert[j].lng), c = toV(vert[k].lat, vert[k].lng);
+                        faceCentre[nfaces++] = toLL({a.x + b.x + c.x, a.y + b.y + c.y, a.z + b.z + c.z});
+                    }
     }
 };
 inline const Ico &ico() {
@@ -130,6 +144,12 @@ inline LatLng pointFaceEdge(int res) {  // point on one of the 30 icosahedron ed
     double off = rpick({1, 2}) == 0 ? 0.0 : runit() * 3.0 * cellWidth(res);
     return offset(p, off, runit() * 2 * PI);
 }
+inline LatLng pointFaceCentre(int res) {  // one of the 20 icosahedron face centres, offset by 0..4 cell widths
+    const Ico &I = ico();
+    LatLng p = I.faceCentre[ri(0, 19)];
+    double off = rpick({1, 3}) == 0 ? 0.0 : runit() * 4.0 * cellWidth(res);
+    return offset(p, off, runit() * 2 * PI);
+}
 inline LatLng pointUniform() { return {std::asin(2 * runit() - 1), (2 * runit() - 1) * PI}; }
 inline LatLng pointPolar(int res) {
     double d = rpick({1, 1}) == 0 ? runit() * 4 * cellWidth(res) : runit() * 0.002;
@@ -142,14 +162,19 @@ inline LatLng pointAntimeridian(int res) {
     return {std::asin(2 * runit() - 1) * 0.98, lng};
 }
 
-enum Arm { UNIFORM_INDEX = 0, PENT_CHAIN, PENT_DISK, FACE_EDGE, POLAR, ANTIMERIDIAN, UNIFORM_SPHERE, NARMS };
-static const char *ARM_NAME[] = {"uniform-index", "pentagon-chain", "pentagon-disk", "face-edge", "polar", "antimeridian", "uniform-sphere"};
+enum Arm { UNIFORM_INDEX = 0, PENT_CHAIN, PENT_DISK, FACE_EDGE, POLAR, ANTIMERIDIAN, UNIFORM_SPHERE, FACE_CENTRE, CENTRE_DESC, NARMS };
+static const char *ARM_NAME[] = {"uniform-index", "pentagon-chain", "pentagon-disk", "face-edge", "polar", "antimeridian", "uniform-sphere", "face-centre", "centre-descendant"};
 
 struct GCell {
     H3Index h;
     int arm;
 };
-inline GCell cellRes(int res, std::initializer_list<int> w = {3, 2, 4, 4, 1, 1, 1}) {
+inline H3Index cellCentreDesc(int res) {  // centre descendant (trailing zero digits) of a coarser cell; in a pentagon base cell half of the time
+    int r0 = ri(0, res);
+    H3Index a = ri(0, 1) ? cellPentChain(r0) : cellUniformIndex(r0);
+    return ref::center_child(a, res);
+}
+inline GCell cellRes(int res, std::initializer_list<int> w = {3, 2, 4, 4, 1, 1, 1, 1, 2}) {
     int arm = rpick(w);
     H3Index h = 0;
     switch (arm) {
@@ -159,6 +184,8 @@ inline GCell cellRes(int res, std::initializer_list<int> w = {3, 2, 4, 4, 1, 1, 
         case FACE_EDGE: h = cellAt(pointFaceEdge(res), res); break;
         case POLAR: h = cellAt(pointPolar(res), res); break;
         case ANTIMERIDIAN: h = cellAt(pointAntimeridian(res), res); break;
+        case FACE_CENTRE: h = cellAt(pointFaceCentre(res), res); break;
+        case CENTRE_DESC: h = cellCentreDesc(res); break;
         default: h = cellAt(pointUniform(), res); break;
     }
     return {h, arm};
